@@ -68,6 +68,11 @@ PW_POOL_UNI = PW_POOL + ["абв", "パス", "naïve café " * 12, "é" * 64, "x
 
 def gen_bytes(t, label):
     k = t.draw(6, label + ".kind")
+    if t.coin(2, 100, label + ".long"):
+        # long data (sizes around 1 K and 4 K): every byte is still deciphered with the object's key
+        n = t.pick([1023, 1024, 1025, 2048, 4095, 4097], label + ".longn")
+        seedb = t.draw(256, label + ".longseed")
+        return bytes((i * 31 + seedb) % 251 for i in range(n))
     if k == 0:
         return b""
     if k == 1:
